@@ -524,3 +524,38 @@ func verifST_walkrender() {
 	real, _ := stdjson.Marshal(ph)
 	verifAssert(string(real) == string(verifRender(ph, verifModeJSON, nil)), "placeholder text equals json.Marshal")
 }
+
+// C09_walk_refused: an Encode that FAILS after the binary walk has started - more Binary leaves than maxAttachments allows,
+// or a *Binary met after an earlier leaf was already replaced - also leaves the values it was given as they were: the
+// same values can then be encoded by a parser without the limit and yield the reference frames.
+//
+//verif:unwind 40
+func verifH_C09_walk_refused() {
+	twoLeaves := []int{5, 6, 7, 8, 11, 12, 14}
+	shape := twoLeaves[verifChoose(0, len(twoLeaves)-1)]
+	b1, b2 := verifSymBinary(2), verifSymBinary(2)
+	o1, o2 := append([]byte(nil), b1...), append([]byte(nil), b2...)
+	held, leaves, _ := verifWalkShape(shape, b1, b2)
+	var args []any
+	if verifAnyBool() {
+		args = []any{"ev", held} // refused for its attachment count (limit 1, two leaves)
+	} else {
+		bb := Binary("x")
+		args = []any{"ev", held, &bb} // refused for the *Binary that follows
+	}
+	before := verifRender(held, verifModeSnap, nil)
+	limited := &Parser{json: &verifWalkJSON{}, maxAttachments: 1}
+	_, err := limited.Encode(&parser.PacketHeader{Type: parser.PacketTypeEvent, Namespace: "/"}, &args)
+	verifAssert(err != nil, "the packet is refused")
+	after := verifRender(held, verifModeSnap, nil)
+	verifAssert(verifEqBytes(before, after), "a refused Encode does not change the values it was given either")
+	// and they still encode
+	free := &Parser{json: &verifWalkJSON{}}
+	args2 := []any{"ev", held}
+	bufs, err2 := free.Encode(&parser.PacketHeader{Type: parser.PacketTypeEvent, Namespace: "/"}, &args2)
+	verifAssert(err2 == nil && len(bufs) == 1+len(leaves), "the same values are accepted by a parser without the limit")
+	if err2 == nil && len(bufs) == 3 {
+		verifAssert(verifEqBytes(bufs[1], o1) && verifEqBytes(bufs[2], o2), "with their own bytes as attachments")
+	}
+	verifReach("end")
+}
